@@ -247,7 +247,11 @@ def handle (d : DState) (toks : List String) : DState × String :=
       -- map iteration order.  So: every observed entry is a model entry, and every model (kind, key) is
       -- represented exactly once.
       let model := (snapshot st).map showSnap
-      let kk (e : String) : String := "|".intercalate ((e.splitOn "|").take 2)
+      -- value and duration histograms live in ONE Go map (`snap.histograms`), so they share a key space
+      let kk (e : String) : String :=
+        match e.splitOn "|" with
+        | k :: key :: _ => (if k == "hd" || k == "hv" then "h" else k) ++ "|" ++ key
+        | _ => e
       let obsL := if osnap == "-" then [] else osnap.splitOn ";"
       let okSubset := obsL.all fun e => model.contains e
       let okCover := (model.map kk).eraseDups.all fun k => (obsL.filter fun e => kk e == k).length == 1
